@@ -72,6 +72,10 @@ package scen
 //	                  stay live through Close (a caller using
 //	                  context.Background()).
 //
+// Dual client: half of the callers have subscribed to query events
+// (routing.RegisterForQueryEvents; c03op.qev, c03_clients.go) - no new rule, the
+// rules above judge what the operation does on top of the caller's subscription.
+//
 // Scenarios: ops-faulty (any operation mix, faults, cancellation), ops-clean
 // (no faults, no cancellation), optimistic-provide (EnableOptimisticProvide,
 // estimator fed by real warm-up lookups, or deliberately left unfed),
@@ -331,6 +335,13 @@ type c03op struct {
 	cancel   context.CancelFunc
 	evCancel context.CancelFunc
 	evCh     <-chan *dht.LookupEvent
+
+	// qev: the caller listens to query events (routing.RegisterForQueryEvents on
+	// a context of its own that outlives the operation's, read eagerly by a
+	// harness goroutine): see spawn. Dual client only (c03_clients.go).
+	qev       bool
+	qevCancel context.CancelFunc
+	qevRead   atomic.Int32
 
 	// lagging lookup-event subscriber (c03_events.go); lag == 0: the subscriber
 	// keeps up (pump)
@@ -980,6 +991,20 @@ func (w *c03world) genOp(i int, rng *subRng, usedTags map[string]bool) *c03op {
 			op.neverCancel = s.Chance("never-cancel", 2, 3)
 		}
 	}
+	if c.Client == "dual" && s.Chance("query-events", 1, 2) {
+		// The caller has subscribed to query events, as a command-line "find
+		// providers -v" or an HTTP handler streaming progress does. The dual client
+		// then takes another path (it subscribes itself on behalf of its two
+		// instances and merges what they publish). The subscription is the
+		// caller's: it ends when the caller ends it (teardown), so the operation's
+		// context is not one of the "never cancelled through Close" kind, but it
+		// is live during the background census. The result consumer reads eagerly:
+		// behind a consumer that is not reading the merge does not read the
+		// events either, the publishers then queue up on a plain mutex inside
+		// go-libp2p's event channel, and a goroutine blocked there is not durably
+		// blocked for the bubble (HARNESS.md pitfall 9).
+		op.qev, op.neverCancel, op.lazy = true, false, false
+	}
 	if c.Lag {
 		w.genLag(op)
 	}
@@ -1010,16 +1035,30 @@ func c03AppendUnique(l []*simnet.Peer, p *simnet.Peer) []*simnet.Peer {
 // operation; the goroutine parks at once so that starting it is a decision.
 func (w *c03world) spawn(op *c03op) {
 	s := w.s
+	root := context.Background()
+	if op.qev {
+		// the caller's query-event subscription: registered on a context that
+		// outlives the operation's and is cancelled at teardown; a harness
+		// goroutine reads the events as they come
+		qctx, qcancel := context.WithCancel(root)
+		regCtx, qch := routing.RegisterForQueryEvents(qctx)
+		op.qevCancel, root = qcancel, regCtx
+		go func() {
+			for range qch {
+				op.qevRead.Add(1)
+			}
+		}()
+	}
 	if !w.hasEvents(op) || op.neverCancel {
 		// no lookup-event subscription (no usable events, see hasEvents; or its
 		// context would have to be cancelled to end it): the caller's context
 		// hangs off context.Background()
-		op.base = sim.WithTag(context.Background(), op.tag)
+		op.base = sim.WithTag(root, op.tag)
 	} else {
 		// the registration context outlives the operation's context: it is
 		// cancelled at teardown ("MUST be canceled when the caller is no longer
 		// interested in query events"), the operation runs under a child of it
-		evCtx, evCancel := context.WithCancel(context.Background())
+		evCtx, evCancel := context.WithCancel(root)
 		if op.lag != 0 {
 			defer func(n int) { dht.LookupEventBufferSize = n }(dht.LookupEventBufferSize)
 			dht.LookupEventBufferSize = op.evBuf
@@ -1050,6 +1089,9 @@ func (w *c03world) begin(op *c03op) {
 	}
 	if op.neverCancel {
 		w.s.Count("probe_never_cancelled_ctx")
+	}
+	if op.qev {
+		w.s.Count("probe_query_event_subscriber")
 	}
 	if op.localVal {
 		op.pipe++ // the search hands the local record to the value loop first
@@ -1598,6 +1640,10 @@ func (w *c03world) onFinished(op *c03op) {
 	if op.inDrain {
 		s.Count("probe_drain_finished_op")
 	}
+	if op.qev && op.qevRead.Load() > 0 {
+		s.Count("probe_query_events_read")
+		s.Count("probe_query_events_read_" + op.name())
+	}
 	if w.cfg.FaultLevel == 3 {
 		s.Count("probe_returned_all_failing")
 	}
@@ -2034,6 +2080,11 @@ func (w *c03world) backgroundCensus() {
 		s.Count("step_budget_exhausted")
 		return
 	}
+	for _, op := range w.ops {
+		if op.qev && op.ctx.Err() == nil {
+			s.Count("probe_qev_ctx_live_at_background_census")
+		}
+	}
 	now := c03Census()
 	var extra []string
 	for c, n := range now {
@@ -2101,6 +2152,9 @@ func (w *c03world) teardown() {
 	for _, op := range w.ops {
 		if op.evCancel != nil {
 			op.evCancel()
+		}
+		if op.qevCancel != nil {
+			op.qevCancel()
 		}
 	}
 	s.Quiesce()
